@@ -169,6 +169,7 @@ static Verdict enumerate(int tier, int shard, int nshards, Fields *failing) {
       for (int i = 0; i < len; i++) { s += alpha[x % K]; x /= K; }
       for (int kind = 0; kind < 5; kind++) {
         if (!in_domain(s, kind)) continue;
+        { Fields c; c.set("name", s); c.seti("kind", kind); note_case(c); }
         Verdict r = check_one(s, kind);
         stats().evaluations++;
         if (r.kind == Verdict::FAIL) { failing->set("name", s); failing->seti("kind", kind); return r; }
